@@ -33,6 +33,8 @@ def generic_draws(e, seed, n, tag="c09"):
         for k_, x in kw.items():
             if isinstance(x, (int, float)) and not isinstance(x, bool) and k_ != "n":
                 out.add((k_, "above" if x > 1.15 else ("below" if x < 0.87 else "at")))
+            elif isinstance(x, (list, tuple)) and isinstance(kw.get("n"), int) and len(x) != kw["n"]:
+                out.add((k_, "length differs from n"))
         return out
     out, seen = [], set()
     for j in range(n):
